@@ -175,6 +175,10 @@ def enumerate_cases(tier, seed, classes="discretizers"):
             a = list(alpha) + ([(0, 0)] if kind == "ORD" else [])
             if tier == "quick":
                 tabs, tr = space.construct(a, 1, kmax, ordered=(kind not in ("CAT",)))
+                if kind in ("ORD", "QNT"):  # a rare middle value needs >= 4 ordered values to have a choice of neighbours
+                    sub = [(1, 0), (0, 1), (2, 1), (5, 0)]
+                    t4, tr4 = space.construct(sub, 4, 5, ordered=True)
+                    tabs, tr = tabs + t4, tr + tr4
             else:  # full alphabet up to k=3, quick alphabet for k=4
                 tabs, tr = space.construct(a, 1, 3, ordered=(kind not in ("CAT",)))
                 aq = list(SIGMA_D["quick"]) + ([(0, 0)] if kind == "ORD" else [])
@@ -183,7 +187,7 @@ def enumerate_cases(tier, seed, classes="discretizers"):
             tabs = [()] + tabs
             transitions += tr
             for cells in tabs:
-                for nan in NAN_CELLS[tier] if len(cells) <= 3 else NAN_CELLS["quick"]:
+                for nan in NAN_CELLS[tier] if len(cells) <= 3 else (NAN_CELLS["quick"] if tier != "quick" else [None]):
                     if not cells and nan is None:
                         continue
                     if sum(c[0] + c[1] for c in cells) + (sum(nan) if nan else 0) < 2:
